@@ -8,8 +8,8 @@ ROOT = os.path.dirname(os.path.dirname(os.path.abspath(__file__)))
 CLAIMS = {
     "C11": ("model_checking",
             "Every operation history up to the depth bound over the CVec alphabet (incl. out-of-range insert/remove, reserve, clone, "
-            "element writes, all From<Vec> shapes) is executed on the real CVec in lock-step with a Vec reference model, for five element "
-            "types, over an allocator that always relocates on growth and over one that grows in place inside a size class; contents, length, capacity, panics, per-element drop counts, allocator balance/layout/red zones and the calls made "
+            "element writes, all From<Vec> shapes) is executed on the real CVec in lock-step with a Vec reference model, for seven element "
+            "types (incl. zero-sized with destructor, heap-owning, and one whose Clone is not a bitwise copy), over an allocator that always relocates on growth and over one that grows in place inside a size class; contents, length, capacity, panics, per-element drop counts, allocator balance/layout/red zones and the calls made "
             "through the stored reserve_fn/drop_fn are compared after every step. Full enumeration (no state merging) plus a deeper BFS "
             "with canonical-state deduplication.",
             "DESIGN.md §4 C11",
@@ -72,7 +72,7 @@ CLAIMS = {
             "gen/bindgen_c17.py"),
     "C18": ("exploration",
             "Same header space plus several context types, wrapped-return structs, planted foreign declarations with CGlue-like names, all config "
-            "combinations and 8 argument layouts: the processed header must compile on its own (gcc -std=c99 / g++ -std=c++11), R fresh-process "
+            "combinations and 8 argument layouts: the processed header must compile on its own (gcc -std=c99 / g++ -std=c++11), in C every object type must keep the size the Rust side gives it, R fresh-process "
             "runs must be byte-identical (R=5/25) and a further run over a stale, longer file at the output path must give the same bytes, planted declarations must survive verbatim and in order, the stub cbindgen must receive exactly the "
             "post-`--` arguments minus the output path, and the processed header must land in that path.",
             "DESIGN.md §4 C18, §5.5",
@@ -151,7 +151,8 @@ CLAIMS = {
             "reference model (multiset of handles per allocation); strong counts, payload drop counts, pointer identity, the stored "
             "function pointers (C view) and allocator balance are checked after every step; full enumeration plus BFS to closure of the "
             "canonical state space; payload types of alignment 8 and 64; two teardown orders (a retained std Arc goes last / the handles "
-            "go last, so that the last handle must destroy the payload). Concurrent half: loom explores all interleavings (preemption-bounded) of 2-3 threads operating on handles "
+            "go last, so that the last handle must destroy the payload); an extended alphabet adds opaque handles assembled through the published "
+            "layout with another module's clone/drop functions, clone_from, and handles dropped while a panic unwinds. Concurrent half: loom explores all interleavings (preemption-bounded) of 2-3 threads operating on handles "
             "to one allocation over the real arc.rs compiled against loom's Arc, every scenario with and without another owner "
             "(handles-only: the payload must be destroyed exactly once by whichever handle is released last).",
             "DESIGN.md §4 C10",
@@ -186,18 +187,19 @@ CLAIMS = {
             "h_runtime/c14"),
     "C15": ("model_checking",
             "Callbacks: every (length, stop position, sink kind, delivery path) cell with drop-counting items, the delivery paths including "
-            "feed_into / feed_into_mut / extend from a lazy source passed by_ref (the source must be advanced by exactly the offered items). Iterators: for every source "
+            "feed_into / feed_into_mut / extend from a lazy source passed by_ref (the source must be advanced by exactly the offered items). A second step drives the callback / iterator helpers that the real "
+            "cglue-bindgen writes into a C header (dynamic and static collectors, counter, buffer iterator) from C for every item count up to a bound. Iterators: for every source "
             "iterator shape and length, every operation sequence up to a depth over {next through each wrapper constructor, two nexts on one "
             "wrapper, next on the source directly, wrap-and-release} is executed from scratch and compared step by step with a model of the source.",
             "DESIGN.md §4 C15",
             "Bounded lengths/depths.",
             "explicit-state exploration of the real code (all operation sequences up to a depth vs. reference model)",
-            "h_runtime/c15"),
+            "h_runtime/c15 + gen/bindgen_c15.py"),
     "C19": ("model_checking",
             "Sequential half: a scripted future/stream/sink behind trait_obj! is polled with a counting caller-side waker; every history up "
             "to the depth bound over {clone/wake_by_ref of cx.waker(), clone/wake/wake_by_ref/drop of any live foreign-side waker} x {inside a new "
             "poll, inside the same poll, after the poll, after the poll on another OS thread}, plus the caller dropping its own waker while "
-            "foreign wakers live, with an ordinary and with a null-data caller waker, is executed on the real code; after every step "
+            "foreign wakers live, with an ordinary and with a null-data caller waker, and an opaque future polled inside another opaque future, is executed on the real code; after every step "
             "the caller's wake count must equal the wake operations and its refcount must never go below the start value and return to it when "
             "no foreign waker is left; it is never used after its last release and never released while a foreign waker lives. Concurrent half: loom explores all interleavings of 2-3 threads operating on foreign wakers over the real "
             "task/mod.rs compiled against a loom-backed tarc::BaseArc.",
